@@ -202,6 +202,9 @@ InScore(s, lo, lok, hi, hik) == /\ (lok = 2 \/ (lok = 0 /\ Ord(s) >= Ord(lo)) \/
 InLex(m, lo, lok, hi, hik) == /\ (lok = 2 \/ (lok = 0 /\ m >= lo) \/ (lok = 1 /\ m > lo))
                               /\ (hik = 2 \/ (hik = 0 /\ m <= hi) \/ (hik = 1 /\ m < hi))
 PairsOf(r, ms) == [i \in 1..Len(ms) |-> <<ms[i], r.sc[ms[i]]>>]
+\* LIMIT offset count on a sequence
+Lim(s, off, cnt) == IF off < 0 \/ off >= Len(s) THEN <<>>
+                    ELSE IF cnt < 0 THEN SubSeq(s, off + 1, Len(s)) ELSE SubSeq(s, off + 1, Min2(Len(s), off + cnt))
 SelSeq(s, P(_)) == LET F[i \in 0..Len(s)] == IF i = 0 THEN <<>> ELSE IF P(s[i]) THEN Append(F[i - 1], s[i]) ELSE F[i - 1]
                    IN F[Len(s)]
 
@@ -424,6 +427,13 @@ DoZSet(db, c, k, a, t, now) ==
             Res(db, RPairs(PairsOf(rd, SelSeq(zr, LAMBDA m : InScore(rd.sc[m], a[1], a[2], a[3], a[4])))))
        [] c = "zrevrangebyscore" ->
             Res(db, RPairs(PairsOf(rd, Rev(SelSeq(zr, LAMBDA m : InScore(rd.sc[m], a[1], a[2], a[3], a[4]))))))
+       \* ... LIMIT offset count: a = <<lo, lokind, hi, hikind, offset, count>>; a negative count means "all from
+       \* offset on", a negative offset selects nothing (Redis)
+       [] c = "zrangebyscorel" ->
+            Res(db, RPairs(PairsOf(rd, Lim(SelSeq(zr, LAMBDA m : InScore(rd.sc[m], a[1], a[2], a[3], a[4])), a[5], a[6]))))
+       [] c = "zrevrangebyscorel" ->
+            Res(db, RPairs(PairsOf(rd, Lim(Rev(SelSeq(zr, LAMBDA m : InScore(rd.sc[m], a[1], a[2], a[3], a[4]))), a[5], a[6]))))
+       [] c = "zrangebylexl" -> Res(db, RIds(Lim(Sorted({m \in DOMAIN rd.sc : InLex(m, a[1], a[2], a[3], a[4])}), a[5], a[6])))
        [] c = "zcount" -> Res(db, RInt(Cardinality({m \in DOMAIN rd.sc : InScore(rd.sc[m], a[1], a[2], a[3], a[4])})))
        [] c = "zrangebylex" -> Res(db, RIds(Sorted({m \in DOMAIN rd.sc : InLex(m, a[1], a[2], a[3], a[4])})))
        [] c = "zlexcount" -> Res(db, RInt(Cardinality({m \in DOMAIN rd.sc : InLex(m, a[1], a[2], a[3], a[4])})))
@@ -498,7 +508,7 @@ LCmds  == {"llen", "lindex", "lrange", "lpush", "lpush2", "rpush", "rpush2", "lp
            "lclear", "lkeyexist", "lexpire", "lttl", "lpersist"}
 SCmds  == {"scard", "sismember", "smembers", "srandmember", "sadd", "sadd2", "srem", "srem2", "spop", "spopn",
            "sclear", "skeyexist", "sexpire", "sttl", "spersist"}
-ZCmds  == {"zcard", "zscore", "zrank", "zrevrank", "zrange", "zrevrange", "zrangebyscore", "zrevrangebyscore",
+ZCmds  == {"zrangebyscorel", "zrevrangebyscorel", "zrangebylexl", "zcard", "zscore", "zrank", "zrevrank", "zrange", "zrevrange", "zrangebyscore", "zrevrangebyscore",
            "zcount", "zrangebylex", "zlexcount", "zadd", "zadd2", "zincrby", "zrem", "zrem2", "zremrangebyrank",
            "zremrangebyscore", "zremrangebylex", "zclear", "zkeyexist", "zexpire", "zttl", "zpersist"}
 ReadCmds == {"get", "strlen", "exists", "exists2", "mget", "getrange", "ttl",
@@ -507,7 +517,7 @@ ReadCmds == {"get", "strlen", "exists", "exists2", "mget", "getrange", "ttl",
              "scard", "sismember", "smembers", "srandmember", "skeyexist", "sttl",
              "zcard", "zscore", "zrank", "zrevrank", "zrange", "zrevrange", "zrangebyscore", "zrevrangebyscore",
              "zcount", "zrangebylex", "zlexcount", "zkeyexist", "zttl",
-             "getbit", "bitcount", "bitcount2", "bkeyexist", "bttl"}
+             "getbit", "bitcount", "bitcount2", "bkeyexist", "bttl", "zrangebyscorel", "zrevrangebyscorel", "zrangebylexl"}
 ExpiryCmds == {"setx", "setex", "expire", "persist", "ttl", "hexpire", "httl", "hpersist", "lexpire", "lttl",
                "lpersist", "sexpire", "sttl", "spersist", "zexpire", "zttl", "zpersist", "bexpire", "bttl", "bpersist"}
 
